@@ -52,14 +52,15 @@ type body struct {
 }
 
 type world struct {
-	rm        *lib.RegistrationManager
-	anns      []lib.VerifDetectorMsg
-	annCov    []string
-	lookups   []string
-	bad       string // invariant violation noticed by a thread
-	lifetimes bool   // the scenario lets time pass: "new exactly once" is judged per lifetime
-	bodies    []body
-	finalize  func() string
+	rm         *lib.RegistrationManager
+	anns       []lib.VerifDetectorMsg
+	introduced map[string]bool // registrations announced as new during the scenario's set-up
+	annCov     []string
+	lookups    []string
+	bad        string // invariant violation noticed by a thread
+	lifetimes  bool   // the scenario lets time pass: "new exactly once" is judged per lifetime
+	bodies     []body
+	finalize   func() string
 }
 
 func conf() *lib.RegConfig {
@@ -205,9 +206,37 @@ func (w *world) digest() string {
 
 var dupCount = regexp.MustCompile(` n=\d+`)
 
+// resetAnns forgets the announcements of the scenario's set-up, remembering which registrations they introduced.
+func (w *world) resetAnns() {
+	if w.introduced == nil {
+		w.introduced = map[string]bool{}
+	}
+	for _, an := range w.anns {
+		if an.Op == "New" {
+			w.introduced[an.Reg.IDString()+an.Reg.PhantomIp.String()] = true
+		}
+	}
+	w.anns = w.anns[:0]
+}
+
 func (w *world) invariants() string {
 	if w.bad != "" {
 		return w.bad
+	}
+	// the detector must hear of a registration before it hears that it is in use: an Update published ahead of the
+	// New of the same lifetime is overridden by it (the New carries the short, unused lifetime) - a lost update that
+	// no serial order of ingest and connection handling produces
+	intro := map[string]bool{}
+	for k := range w.introduced {
+		intro[k] = true
+	}
+	for _, an := range w.anns {
+		k := an.Reg.IDString() + an.Reg.PhantomIp.String()
+		if an.Op == "New" {
+			intro[k] = true
+		} else if an.Op == "Update" && !intro[k] {
+			return fmt.Sprintf("registration %s: the detector was told it is in use (Update) before it was told it exists (New)", an.Reg.IDString())
+		}
 	}
 	news := map[string]int{}
 	lives := map[any]int{}
@@ -267,7 +296,7 @@ func scenarios() map[string]scenario {
 			for _, r := range mustParse(w.rm, msg(1, "93.184.216.34:443")) {
 				w.rm.VerifIngest(r)
 			}
-			w.anns = w.anns[:0]
+			w.resetAnns()
 			d, _ := time.ParseDuration(age)
 			vsched.Advance(d)
 			w.bodies = []body{w.worker("worker-dup", msg(1, "93.184.216.34:443")), {name: "sweeper", f: func() { w.rm.RemoveOldRegistrations() }}, w.conn("conn", 1, 1)}
@@ -282,8 +311,15 @@ func scenarios() map[string]scenario {
 		for _, r := range mustParse(w.rm, msg(1, "93.184.216.34:443")) {
 			w.rm.VerifIngest(r)
 		}
-		w.anns = w.anns[:0]
+		w.resetAnns()
 		w.bodies = []body{w.worker("worker-prefix", msgT(1, pb.TransportType_Prefix, "93.184.216.34:443")), w.connAll("conn", 1, 2)}
+		return w
+	}})
+	// a worker validating a registration while its client connects, every lock release a scheduling point: whatever
+	// happens between making the registration visible and telling the detector is exposed to the connection handler
+	add(scenario{"S8:worker+connection@release-points", func() *world {
+		w := newWorld()
+		w.bodies = []body{w.worker("worker", msg(1, "93.184.216.34:443")), w.conn("conn", 1, 2)}
 		return w
 	}})
 	add(scenario{"S8:lookup-all+sweeper@release-points", func() *world {
@@ -297,7 +333,7 @@ func scenarios() map[string]scenario {
 		for _, r := range mustParse(w.rm, msgT(1, pb.TransportType_Prefix, "93.184.216.34:443")) {
 			w.rm.VerifIngest(r)
 		}
-		w.anns = w.anns[:0]
+		w.resetAnns()
 		w.bodies = []body{{name: "sweeper", f: func() { w.rm.RemoveOldRegistrations() }}, w.connAll("conn", 1, 2)}
 		return w
 	}})
@@ -327,7 +363,7 @@ func scenarios() map[string]scenario {
 					w.rm.VerifIngest(r)
 				}
 			}
-			w.anns = w.anns[:0]
+			w.resetAnns()
 			vsched.Advance(10*time.Minute + time.Second)
 			w.bodies = []body{{name: "sweeper", f: func() { w.rm.RemoveOldRegistrations() }}, w.conn("conn", act, 1)}
 			return w
